@@ -6,12 +6,21 @@ Definition opt2s (o : option str) : str := match o with Some s => s | None => [3
 
 Definition verr_obs (e : verr) : str := itoa (etype_index (e_type e)) ++ [58] ++ b2s (e_failure e).
 
+(* the search parameter list of a URL if it has been created ("-" otherwise), length-prefixed so that
+   arbitrary bytes in names and values cannot be confused with separators *)
+Definition sp_obs (o : option (list (str * str))) : str :=
+  match o with
+  | None => [45]
+  | Some l => flat_map (fun nv => itoa (N.of_nat (length (fst nv))) ++ [58] ++ fst nv ++ itoa (N.of_nat (length (snd nv))) ++ [58] ++ snd nv) l
+  end.
+
 (* every public getter of a URL, in a fixed order *)
 Definition obs_url (c : cfg) (u : url) : list str :=
   [ opt2s (Href u false); opt2s (Href u true); Protocol u; Username u; Password u; Host u; Hostname u; Port u;
     opt2s (Pathname u); Search u; Hash u; u_scheme u; Query u; Fragment u; itoa (DecodedPort c u);
     b2s (IsIPv4 c u); b2s (IsIPv6 u); b2s (u_opaque u); b2s (IsSpecialScheme c u);
-    join [44] (map verr_obs (u_verrs u)) ].
+    join [44] (map verr_obs (u_verrs u));
+    sp_obs (u_sp u) ].
 
 Definition obs_pairs (l : list (str * str)) : list str := flat_map (fun nv => [fst nv; snd nv]) l.
 
